@@ -198,10 +198,16 @@ type Engine struct {
 }
 
 // URI returns the document URI of a workspace-relative path.
-func URI(rel string) string { return "file://" + Root + "/" + rel }
+func URI(rel string) string { return "file://" + Abs(rel) }
 
 // Abs returns the absolute simulated path.
-func Abs(rel string) string { return Root + "/" + rel }
+// A path that starts with "/" is already absolute (files of a second workspace root).
+func Abs(rel string) string {
+	if strings.HasPrefix(rel, "/") {
+		return rel
+	}
+	return Root + "/" + rel
+}
 
 func (e *Engine) probe(name string) {
 	e.res.Probes[name]++
